@@ -439,6 +439,9 @@ func (w *World) exchangeNoNotify(entity Entity, add []ID, rem []ID, relation ID,
 	mask := w.getExchangeMask(oldMask, add, rem)
 
 	if hasRelation {
+		if !target.IsZero() && !w.entityPool.Alive(target) {
+			panic("can't make a dead entity a relation target")
+		}
 		if !mask.Get(relation) {
 			tp, _ := w.registry.ComponentType(relation.id)
 			panic(fmt.Sprintf("can't add relation: resulting entity has no component %s", tp.Name()))
@@ -586,6 +589,10 @@ func (w *World) exchangeBatchNoNotify(filter Filter, add []ID, rem []ID, relatio
 			panic("exchange operation has no effect, but a relation is specified. Use Batch.SetRelation instead")
 		}
 		return 0
+	}
+
+	if hasRelation && !target.IsZero() && !w.entityPool.Alive(target) {
+		panic("can't make a dead entity a relation target")
 	}
 
 	arches := w.getArchetypes(filter)
